@@ -481,6 +481,10 @@ func ext۰reflect۰Value۰Set(fr *frame, args []value) value {
 func ext۰reflect۰valueInterface(fr *frame, args []value) value {
 	// Signature: func (v reflect.Value, safe bool) interface{}
 	v := args[0].(structure)
+	if rV2V(v) == nil {
+		// the zero Value (e.g. Elem() of a nil pointer): reflect panics with a *ValueError
+		panic(targetPanic{rtErr("reflect: call of reflect.Value.Interface on zero Value")})
+	}
 	return iface{rV2T(v).t, rV2V(v)}
 }
 
